@@ -816,6 +816,55 @@ pub fn run(tier: Tier, totals: &mut Totals) {
 
 /// Sizes far beyond the search bound: collections with hundreds of items and hundreds of live handles.
 fn scale(tier: Tier, totals: &mut Totals) {
+    // index texts: what is not an unsigned number (a sign in front, blanks, a fraction, another script's
+    // digits, a number beyond the machine word) is an error and leaves the array alone; `+1` is 1
+    {
+        let idx_texts = [
+            "-1", "-0", "+0", "+1", "+2", "00", "01", " 1", "1 ", "1.0", "1e0", "0x1", "18446744073709551615", "18446744073709551616", "9223372036854775808", "-9223372036854775808",
+            "4294967296", "x", "١", "２", "1_0", "--1", "- 1",
+        ];
+        for len in [0usize, 1, 3] {
+            let items: Vec<String> = ["p", "q", "r"].iter().take(len).map(|x| x.to_string()).collect();
+            for it in idx_texts {
+                let idx: Option<usize> = it.parse::<usize>().ok();
+                let mut model = items.clone();
+                let mut text = format!("a = array {}\n", items.join(" "));
+                text.push_str(&crate::render::line(Some("g"), "array_get", &["${a}", it]));
+                text.push('\n');
+                text.push_str(&crate::render::line(Some("s"), "array_set", &["${a}", it, "new"]));
+                text.push_str("\nj1 = array_join ${a} ,\n");
+                text.push_str(&crate::render::line(Some("rm"), "array_remove", &["${a}", it]));
+                text.push_str("\nj2 = array_join ${a} ,\nlen = array_length ${a}\n");
+                let falsev = Some("false".to_string());
+                let g = match idx {
+                    Some(i) => model.get(i).cloned(),
+                    None => falsev.clone(),
+                };
+                let sres = match idx {
+                    Some(i) if i < model.len() => {
+                        model[i] = "new".into();
+                        Some("true".to_string())
+                    }
+                    _ => falsev.clone(),
+                };
+                let j1 = Some(model.join(","));
+                let rm = match idx {
+                    Some(i) if i < model.len() => {
+                        model.remove(i);
+                        Some("true".to_string())
+                    }
+                    _ => falsev.clone(),
+                };
+                let j2 = Some(model.join(","));
+                crate::util::scale_case_totals(
+                    totals,
+                    &format!("index-text {:?} on {} items", it, len),
+                    &text,
+                    &[("g", g), ("s", sres), ("j1", j1), ("rm", rm), ("j2", j2), ("len", Some(model.len().to_string()))],
+                );
+            }
+        }
+    }
     // joins of items and separators outside ASCII (the joined text is exactly the items with the
     // separator between them, whatever the bytes)
     {
@@ -839,12 +888,12 @@ fn scale(tier: Tier, totals: &mut Totals) {
             }
         }
     }
-    let sizes: Vec<u64> = tier.pick(vec![10, 70, 300], vec![10, 70, 300, 1000, 3000]);
+    let sizes: Vec<u64> = tier.pick(vec![10, 70, 300, 4000], vec![10, 70, 300, 1000, 4000, 20000]);
     for &n in &sizes {
         let tri = (n * (n + 1) / 2).to_string();
         // array: push n items, read the ends, join, pop everything
         let text = format!(
-            "a = array\ni = set 0\nwhile less_than ${{i}} {n}\ni = calc ${{i}} + 1\narray_push ${{a}} ${{i}}\nend\nlen = array_length ${{a}}\nfirst = array_get ${{a}} 0\nlastv = array_get ${{a}} {last}\nbeyond = array_get ${{a}} {n}\njoined = array_join ${{a}} ,\njl = length ${{joined}}\nhas = array_contains ${{a}} {n}\nsum = set 0\nwhile not array_is_empty ${{a}}\nx = array_pop ${{a}}\nsum = calc ${{sum}} + ${{x}}\nend\nlen_after = array_length ${{a}}\nrel = release ${{a}}\nalive = is_array ${{a}}",
+            "a = array\ni = set 0\nwhile less_than ${{i}} {n}\ni = calc ${{i}} + 1\narray_push ${{a}} ${{i}}\nend\nlen = array_length ${{a}}\nfirst = array_get ${{a}} 0\nlastv = array_get ${{a}} {last}\nbeyond = array_get ${{a}} {n}\njoined = array_join ${{a}} ,\njl = length ${{joined}}\nhas = array_contains ${{a}} {n}\ns2 = set_from_array ${{a}}\nss = set_size ${{s2}}\nc2 = array_concat ${{a}} ${{a}}\ncl = array_length ${{c2}}\nrelease ${{s2}}\nrelease ${{c2}}\nsum = set 0\nwhile not array_is_empty ${{a}}\nx = array_pop ${{a}}\nsum = calc ${{sum}} + ${{x}}\nend\nlen_after = array_length ${{a}}\nrel = release ${{a}}\nalive = is_array ${{a}}",
             n = n,
             last = n - 1
         );
@@ -860,6 +909,8 @@ fn scale(tier: Tier, totals: &mut Totals) {
                 ("beyond", None),
                 ("jl", Some(joined_len.to_string())),
                 ("has", Some((n - 1).to_string())),
+                ("ss", Some(n.to_string())),
+                ("cl", Some((2 * n).to_string())),
                 ("sum", Some(tri.clone())),
                 ("len_after", Some("0".into())),
                 ("rel", Some("true".into())),
@@ -948,7 +999,7 @@ pub fn replay(case: &Value) -> Result<String, String> {
     Ok(out.join("\n"))
 }
 
-pub const RULE: &str = "explicit-state breadth-first search from the empty handle table: creators (array, range, map, set_new, set_from_array, array_concat, set_to_array, map_keys), every mutator and query of the statement, is_array/is_map/is_set, release and release -r, each given every live handle, a released handle, an unknown text and a text that looks like a handle, indexes {0,1,2,-1,x}, values {a, empty, 'b c', 0 (, false, look-alike handle, e-acute)} and the handle of the collection itself or of the other live collection as array item, set member, map key and map value (release -r follows such references); growing operations are disabled at 2 live handles / length 2 so the space is finite and searched to a fixpoint. Each transition runs the real command, compares its output with the model (vector / map / set per live handle) and then the complete handle table (every collection equal to the model, no other entry) and the variable map (must stay empty). States are de-duplicated on the multiset of collection contents plus the implementation's remaining state. evaluations = transitions; distinct_nontrivial = distinct states. Scale cases (scripts, results computed in Rust): an array / a map / a set with 10/70/300 (thorough 1000, 3000) items built, read at both ends, joined, searched, emptied; as many live handles held by one outer array and taken by a recursive release";
+pub const RULE: &str = "explicit-state breadth-first search from the empty handle table: creators (array, range, map, set_new, set_from_array, array_concat, set_to_array, map_keys), every mutator and query of the statement, is_array/is_map/is_set, release and release -r, each given every live handle, a released handle, an unknown text and a text that looks like a handle, indexes {0,1,2,-1,x}, values {a, empty, 'b c', 0 (, false, look-alike handle, e-acute)} and the handle of the collection itself or of the other live collection as array item, set member, map key and map value (release -r follows such references); growing operations are disabled at 2 live handles / length 2 so the space is finite and searched to a fixpoint. Each transition runs the real command, compares its output with the model (vector / map / set per live handle) and then the complete handle table (every collection equal to the model, no other entry) and the variable map (must stay empty). States are de-duplicated on the multiset of collection contents plus the implementation's remaining state. evaluations = transitions; distinct_nontrivial = distinct states. Scale cases (scripts, results computed in Rust): an array / a map / a set with 10/70/300 (thorough 1000, 3000) items built, read at both ends, joined, searched, emptied; as many live handles held by one outer array and taken by a recursive release. Index texts: 23 texts (signs, blanks, fractions, other digits, beyond the machine word) x arrays of 0/1/3 items through array_get / array_set / array_remove against usize parsing. Joins of non-ASCII items and separators. The quick sizes include 4000 items (thorough 20000), with set_from_array and array_concat of the big array";
 pub const ASSUMPTIONS: &[&str] = &["listings whose order the documentation does not fix (map_keys, set_to_array) are compared as multisets and then sorted in place by the harness", "random handle names are opaque; a collision of two 20-character random names is outside the model", "operations are run through run_instruction with already-bound arguments"];
 pub const EXHAUSTIVE: bool = true;
 pub const WALL_CAP_S: (u64, u64) = (50, 1500);
